@@ -239,6 +239,9 @@ class C02(Check):
 
         reader_kw = {}
         with Scratch("c02") as tmp:
+            if case_bits(case, "patch-like-parent") % 4 == 0:
+                tmp = tmp / ["patch_3", "run_patch_12"][case_bits(case, "parent-name") % 2] / "cache"
+                tmp.mkdir(parents=True)
             src_path = None
             if source in ("hdf5", "fits", "parquet"):
                 rgs = {"smaller": max(1, chunk // 3), "equal": chunk, "larger": chunk * 2 + 1, "one": n}[case["group"]]
